@@ -12,14 +12,16 @@
        parse cfg c u (Some cls) (events the handler delivers for the document the writer
                                  produced from (generate ign c u o)) = Ok o [].
    It is false of the faithful models (see the _refuted theorems below: xsi:nil conflation on
-   nillable fields, ...).  What is PROVED is the statement under the computable guards
-   `wf_model u cls` (the metadata fragment: slices S1-S3 and, of S4, wrappers and namespaces) and `fits ... o`, for
+   nillable fields, token lists inside sequence groups).  What is PROVED is the statement under the
+   computable guards `wf_model u cls` (the metadata fragment: slices S1-S4) and `fits ... o`, for
    every ignore_default_attributes flag, every parser configuration whose class factory has a
    default for every field, every converter satisfying the round-trip law on the values of `o`,
    and EVERY event stream that reads as the document (any attribute order, any prefix maps,
-   indentation white space): theorem C01_roundtrip_S4_partial.  MISSING from S4: sequence groups.  The
-   rest of the quantifier (sequence groups, nillable, wildcards, compound fields, xsi:type, unions,
-   QName values) is covered by the correspondence and the oracle of harness/c01.py only. *)
+   indentation white space): theorem C01_roundtrip_S4.  Inside S4 one combination is left to the
+   correspondence: a wrapped list inside the span of a sequence group (guard clause seq_member,
+   a modelling rule: it reads back on the real code).  The rest of the quantifier (nillable,
+   wildcards, compound fields, xsi:type, unions, QName values) is covered by the correspondence
+   and the oracle of harness/c01.py only. *)
 From Coq Require Import NArith ZArith List Bool.
 From XV Require Import Base.Str Base.Eqb Base.PyInt Spec.XmlNs Model.Bind Model.WriterBridge Spec.Fits Model.RoundtripCorr
   Proofs.RoundtripParse Proofs.RoundtripMain Proofs.RoundtripWitness Proofs.RoundtripExamples
@@ -27,15 +29,17 @@ From XV Require Import Base.Str Base.Eqb Base.PyInt Spec.XmlNs Model.Bind Model.
 From XV Require Model.EventGen Model.Parser Model.ParserCorr.
 Import ListNotations.
 
-(* ---- the round trip at the infoset level, slices S1-S3 + wrappers and namespaces of S4 ----
+(* ---- the round trip at the infoset level, slices S1-S4 ----
    S1: Attribute / Element fields of primitive type through the abstract converter, optional
        or required, with or without defaults;  S2: nested class-typed Element fields (any depth);
    S3: list fields, token lists (attributes, elements, lists of token lists), Text fields of
-       simple-content classes;  S4 (partial): wrapper elements around plain list fields (an empty
-       list is an empty wrapper element); class / field namespaces ("" and inherited included) come for
-       free: qualified names are opaque to both directions and the guards speak about the
-       qualified names the real XmlContext built. *)
-Theorem C01_roundtrip_S4_partial : forall cfg c u ok ign n cls o,
+       simple-content classes;  S4: wrapper elements around plain list fields (an empty list is
+       an empty wrapper element); sequence groups (`sequence` metadata: the fields of a group are
+       written interleaved, item by item - next_value - and the parser reassembles every list in
+       document order whatever the interleaving); class / field namespaces ("" and inherited
+       included) come for free: qualified names are opaque to both directions and the guards
+       speak about the qualified names the real XmlContext built. *)
+Theorem C01_roundtrip_S4 : forall cfg c u ok ign n cls o,
   conv_roundtrips c u ok ->                 (* converter law on the accepted values (C05 / C06) *)
   nodefault_free cfg = true ->              (* every field has a default (C15, first refutation) *)
   wf_model u cls = true ->                  (* metadata fragment *)
@@ -45,18 +49,18 @@ Theorem C01_roundtrip_S4_partial : forall cfg c u ok ign n cls o,
     /\ itree_of_events (map (of_wevent c) evs) = Some e
     /\ forall k pevs, reads e pevs -> Parser.parse_n k cfg c u (Some cls) pevs = Parser.Ok o [].
 Proof. intros. eapply roundtrip_reads; eassumption. Qed.
-Print Assumptions C01_roundtrip_S4_partial.
+Print Assumptions C01_roundtrip_S4.
 
 (* ---- the same in the form of the property text: the canonical reader stream `pump` of the tree
    the emitted events mean (C03 connects that tree with the documents both writers produce) *)
-Theorem C01_roundtrip_pump_S4_partial : forall cfg c u ok ign n cls o,
+Theorem C01_roundtrip_pump_S4 : forall cfg c u ok ign n cls o,
   conv_roundtrips c u ok -> nodefault_free cfg = true ->
   wf_model u cls = true -> fits c u ok py_isspace n cls o = true ->
   exists evs,
     EventGen.generate ign c u o = EventGen.Ok evs
     /\ Parser.parse cfg c u (Some cls) (pump (itree_of_events (map (of_wevent c) evs))) = Parser.Ok o [].
 Proof. intros. eapply roundtrip_pump; eassumption. Qed.
-Print Assumptions C01_roundtrip_pump_S4_partial.
+Print Assumptions C01_roundtrip_pump_S4.
 
 (* ---- the text level: composition with property C03 (both writers) ---------------------------
    `pump_doc m t tail` = the events an XML reader delivers for the infoset tree `t` (ElementTree
@@ -64,20 +68,20 @@ Print Assumptions C01_roundtrip_pump_S4_partial.
    the white-space-only text nodes of elements that have child elements (what SerializerConfig.indent
    adds); `wf_doc`: no element carries two attributes with the same expanded name.
    Every document tree that says the expected tree, also after indentation, is parsed back: *)
-Theorem C01_document_parses_S4_partial : forall cfg c u ok ign n cls o t' m k,
+Theorem C01_document_parses_S4 : forall cfg c u ok ign n cls o t' m k,
   conv_roundtrips c u ok -> nodefault_free cfg = true ->
   wf_model u cls = true -> fits c u ok py_isspace n cls o = true ->
   wf_doc t' = true -> doc_says (eobj c u ign n None o) (strip_indent t') = true ->
   Parser.parse_n k cfg c u (Some cls) (pump_doc m t' None) = Parser.Ok o [].
 Proof. intros. eapply document_parses; try eassumption. reflexivity. Qed.
-Print Assumptions C01_document_parses_S4_partial.
+Print Assumptions C01_document_parses_S4.
 
 (* XmlEventWriter: inside C03's writer_guard (user prefix map, names, XML 1.0 text) the call
    succeeds, the printed document resolves to an infoset tree t, and t - or t with any indentation
    white space added - is read and parsed back to the instance, by whatever handler delivers the
    reader events of the tree (C08: both handlers do, up to lookup-equivalent prefix maps, which
    the statement quantifies over) *)
-Theorem C01_roundtrip_native_S4_partial : forall cfg c u ok ign n cls o wcfg user,
+Theorem C01_roundtrip_native_S4 : forall cfg c u ok ign n cls o wcfg user,
   conv_roundtrips c u ok -> nodefault_free cfg = true ->
   wf_model u cls = true -> fits c u ok py_isspace n cls o = true ->
   cfg_schema_location wcfg = None -> cfg_no_ns_schema_location wcfg = None ->
@@ -90,10 +94,10 @@ Theorem C01_roundtrip_native_S4_partial : forall cfg c u ok ign n cls o wcfg use
                wf_doc t' = true -> strip_indent t' = strip_indent t ->
                Parser.parse_n k cfg c u (Some cls) (pump_doc m t' None) = Parser.Ok o []).
 Proof. intros. eapply roundtrip_native; eassumption. Qed.
-Print Assumptions C01_roundtrip_native_S4_partial.
+Print Assumptions C01_roundtrip_native_S4.
 
 (* LxmlEventWriter: the same for the tree the lxml sink builds *)
-Theorem C01_roundtrip_lxml_S4_partial : forall cfg c u ok ign n cls o wcfg user,
+Theorem C01_roundtrip_lxml_S4 : forall cfg c u ok ign n cls o wcfg user,
   conv_roundtrips c u ok -> nodefault_free cfg = true ->
   wf_model u cls = true -> fits c u ok py_isspace n cls o = true ->
   cfg_schema_location wcfg = None -> cfg_no_ns_schema_location wcfg = None ->
@@ -107,7 +111,7 @@ Theorem C01_roundtrip_lxml_S4_partial : forall cfg c u ok ign n cls o wcfg user,
                wf_doc t' = true -> strip_indent t' = strip_indent t ->
                Parser.parse_n k cfg c u (Some cls) (pump_doc m t' None) = Parser.Ok o []).
 Proof. intros. eapply roundtrip_lxml; eassumption. Qed.
-Print Assumptions C01_roundtrip_lxml_S4_partial.
+Print Assumptions C01_roundtrip_lxml_S4.
 
 (* ---- the hypotheses are inhabited --------------------------------------------------------- *)
 (* the converter law: property C05's models of the str / int / bool converters (C05_int_roundtrip,
@@ -118,7 +122,8 @@ Print Assumptions C01_converter_law_inhabited.
 
 (* metadata exported from the REAL XmlContext (Proofs/RoundtripWitness.v, regenerated and compared
    by every run of the check) and an instance with attributes, token lists, lists, nested
-   simple-content objects, an empty string, namespaces: inside the guards *)
+   simple-content objects, an empty string, wrapped lists, a sequence group of two lists and a
+   scalar, namespaces: inside the guards *)
 Example C01_guards_inhabited :
   wf_model u_rich root_rich = true
   /\ fits conv_c05 u_rich ok_c05 py_isspace 2 root_rich o_rich = true
@@ -153,3 +158,18 @@ Theorem C01_nil_conflation_refuted :
   /\ ParserCorr.outcome_eqb composition_nil (Parser.Ok o_nil []) = false.
 Proof. exact nil_conflation_refuted. Qed.
 Print Assumptions C01_nil_conflation_refuted.
+
+(* clause `seq_member` (known finding C01-F7): a token list inside the span of a sequence group is
+   written token by token (S(x=['ab','cd'], y='q') -> <S><x>ab</x><y>q</y><x>cd</x></S>) and the
+   second <x> is an unknown property for the parser (int tokens: the serializer raises TypeError);
+   without the `sequence` numbers the very same metadata and instance are inside the guards; the
+   faithful models agree with the real parser on the real events *)
+Theorem C01_sequence_tokens_refuted :
+  wf_model u_seqtok root_seqtok = false
+  /\ wf_model (clear_seq u_seqtok) root_seqtok = true
+  /\ fits conv_c05 (clear_seq u_seqtok) ok_c05 py_isspace 1 root_seqtok o_seqtok = true
+  /\ ParserCorr.outcome_eqb composition_seqtok (Parser.Ok o_seqtok []) = false
+  /\ ParserCorr.outcome_eqb (Parser.parse cfg_strict conv_c05 u_seqtok (Some root_seqtok) pevs_seqtok) (Parser.Ok o_seqtok []) = false
+  /\ ParserCorr.outcome_eqb composition_seqtok (Parser.parse cfg_strict conv_c05 u_seqtok (Some root_seqtok) pevs_seqtok) = true.
+Proof. exact sequence_tokens_refuted. Qed.
+Print Assumptions C01_sequence_tokens_refuted.
